@@ -56,6 +56,7 @@ func checkC09(ctx *Ctx, r *Report) {
 	c09CueNumberConstraints(ctx, r)
 	c09GoEnvelopeConstants(ctx, r)
 	c09PythonUnionCollectionBranches(ctx, r)
+	c16ThirdHunt(ctx, r)
 }
 
 // (1a) order of derivation, veneers, nil checks
